@@ -681,6 +681,19 @@ func c12RescuedByOr(p c12Pred, row Row) bool {
 	return false
 }
 
+// c12HasNullOperand reports whether a column the predicate reads is NULL or missing in the row.
+func c12HasNullOperand(p c12Pred, row Row) bool {
+	for _, c := range p.cols() {
+		if v, ok := row[c]; !ok || v == nil {
+			return true
+		}
+		if _, miss := row[c].(c12Missing); miss {
+			return true
+		}
+	}
+	return false
+}
+
 func c12CopyRow(row Row) Row {
 	cp := make(Row, len(row))
 	for k, v := range row {
@@ -767,7 +780,9 @@ func c12RunPkg(ctx *core.Ctx, ref core.CaseRef, r *rand.Rand, nrows int) {
 					agg.add(core.Violation{Kind: "failure.accepts_row", Attrs: mk("value_type", typ, "range", rng),
 						Detail: fmt.Sprintf("expr-lang fails to evaluate %q on row %s, yet Evaluate accepted the row (shortcut text: %v, parenthesised: %v)", fast, shown, df, dg), Case: &vcase})
 				}
-			} else if dv != dg {
+			} else if dv != dg && !c12HasNullOperand(p, row) {
+				// (with a NULL/missing operand the engine applies SQL semantics to = and != — not true —
+				// where plain expr-lang says nil != 5 is true; that is C06's subject, not a path difference)
 				agg.add(core.Violation{Kind: "general.differs_from_exprlang", Attrs: mk("value_type", typ, "range", rng, "variant", "vanilla"),
 					Detail: fmt.Sprintf("engine general path %q -> %v but a plain expr-lang program of %q -> %v; row %s", gen, dg, fast, dv, shown), Case: &vcase})
 			}
